@@ -32,6 +32,7 @@ Requests(ln) == SelectSeq(ln.sent, LAMBDA p : p.type = "request")
 FirstAck(ln) == LET a == SelectSeq(Delivered(ln), LAMBDA r : r.k = "ack") IN IF Len(a) = 0 THEN [res |-> <<"none", "none">>, sign |-> FALSE] ELSE a[1]
 Rejected(ln) ==
   \/ \E j \in 1 .. ln.delivered : ln.script[j].k \in {"nak", "fault", "eof"}
+  \/ \E j \in 1 .. ln.delivered : ln.script[j].k = "wrongack" /\ (Len(Requests(ln)) = 0 \/ j < ln.delivered)     \* an ack of the wrong type during binding
   \/ \E j \in 1 .. ln.delivered : ln.script[j].k = "response" /\ (Len(Requests(ln)) = 0 \/ j < ln.delivered)
   \/ (Len(SelectSeq(Delivered(ln), LAMBDA r : r.k = "ack")) > 0 /\ FirstAck(ln).res[1] # "acc")
 Consistent(ln) == \A i, j \in 1 .. ln.delivered :
